@@ -23,3 +23,109 @@ Theorem seek_contract_one_call : forall s p t, ascending s -> -1 <= p ->
   (ok = false -> forall j, start <= Z.of_nat j -> (j < length s)%nat -> nthZ s j < t).
 Proof. exact seek_contract_step. Qed.
 Print Assumptions seek_contract_one_call.
+
+(* ======================= part 2: selection (matchers -> SQL -> rows -> series) =======================
+   The meaning of SQL is that of the reference interpreter model/PromSem.v (trusted reading of
+   ClickHouse); `re_match h p` is RE2 search (ClickHouse match()), `re_full v p` the anchored match
+   of Prometheus; both are arbitrary functions related only by the anchoring law. *)
+From Coq Require Import NArith String Sorting.Sorted.
+From Qryn Require Import model.Sql model.Logql model.LogqlPlan model.PromSelect model.PromSel model.PromSem model.PromCase
+  proofs.PromSelProofs.
+
+(* The reference interpreter applied to the planner's own fingerprint query (the tree whose rendering
+   is compared byte for byte with the implementation's SQL) computes the list function fp_sel. *)
+Theorem fp_sel_sql_meaning : forall re_match cte c ms gin,
+  eval_fpq re_match cte (stream_select c ms) (map gin_env gin) =
+  fp_sel re_match (from_day (c_from_ns c)) (sel_type c) (map clause_of ms) gin.
+Proof. exact eval_fpq_stream_select. Qed.
+Print Assumptions fp_sel_sql_meaning.
+
+(* fp_sel selects exactly the fingerprints for which every matcher is witnessed by an index row of
+   that fingerprint inside the date / type bounds (at most 8 matchers: UInt8 bit shifts). *)
+Theorem index_query_selects_witnessed : forall re_match D t cs gin fp, cs <> [] -> (List.length cs <= 8)%nat ->
+  List.In fp (fp_sel re_match D t cs gin) <-> series_matches re_match D t cs gin fp.
+Proof. exact fp_sel_correct. Qed.
+Print Assumptions index_query_selects_witnessed.
+
+(* The full statement -- for every consistent database the rows answered to the statement Select sends
+   are the in-window samples of exactly the series whose labels satisfy every matcher (absent label = "")
+   -- is false: a matcher that accepts the empty string never selects a series lacking the label. *)
+Theorem prom_select_exact_refuted :
+  ~ (forall (re_match re_full : string -> string -> bool), (forall v p, re_match v (anchor p) = re_full v p) ->
+     forall cluster dbname h ms db, use_raw_data h = true -> h_step h = 0 ->
+       db_ok (from_day (h_start h * 1000000)) (d_gin db) (d_series db) -> ms <> [] -> (List.length ms <= 8)%nat ->
+       prom_query_rows re_match cluster dbname h ms db = Some (expected_rows re_full h ms db)).
+Proof.
+  intros H. specialize (H re_none re_none (fun _ _ => eq_refl) false "qryn"%string w_hints w_ms w_db eq_refl eq_refl w_db_ok).
+  rewrite w_rows_none, w_expected_none in H. assert (H' := H ltac:(discriminate) ltac:(cbn; auto with arith)). discriminate H'.
+Qed.
+Print Assumptions prom_select_exact_refuted.
+
+(* ... and, independently of absent labels, for nine or more matchers (the ninth bit is shifted out of UInt8) *)
+Theorem prom_select_exact_refuted_nine :
+  ~ (forall (re_match re_full : string -> string -> bool), (forall v p, re_match v (anchor p) = re_full v p) ->
+     forall cluster dbname h ms db, use_raw_data h = true -> h_step h = 0 ->
+       db_ok (from_day (h_start h * 1000000)) (d_gin db) (d_series db) -> ms <> [] ->
+       (forall m, List.In m ms -> matcher_guard re_full (d_series db) m) ->
+       prom_query_rows re_match cluster dbname h ms db = Some (expected_rows re_full h ms db)).
+Proof.
+  intros H. specialize (H re_none re_none (fun _ _ => eq_refl) false "qryn"%string w_hints n_ms n_db eq_refl eq_refl n_db_ok).
+  rewrite n_rows_none, n_expected_none in H.
+  assert (H' : Some (@nil row) = Some [{| r_fp := 41; r_val := 1; r_ts := 1700000001000 |}]).
+  { apply H; [discriminate|]. intros m Hm. left. cbn in Hm.
+    repeat (destruct Hm as [<-|Hm]; [reflexivity|]). contradiction. }
+  discriminate H'.
+Qed.
+Print Assumptions prom_select_exact_refuted_nine.
+
+(* Partial: when every matcher rejects the empty string or no stored series lacks its label, and there
+   are 1..8 matchers, the rows answered are exactly the Prometheus meaning: samples in (from, to] of the
+   metric series satisfying every matcher (regexes anchored), ordered by (fingerprint, time). *)
+Theorem prom_select_exact_partial_rows : forall (re_match re_full : string -> string -> bool),
+  (forall v p, re_match v (anchor p) = re_full v p) ->
+  forall cluster dbname h ms db, use_raw_data h = true -> h_step h = 0 ->
+    db_ok (from_day (h_start h * 1000000)) (d_gin db) (d_series db) -> ms <> [] -> (List.length ms <= 8)%nat ->
+    (forall m, List.In m ms -> matcher_guard re_full (d_series db) m) ->
+    prom_query_rows re_match cluster dbname h ms db = Some (expected_rows re_full h ms db).
+Proof. intros re_match re_full Hl. intros. now apply (prom_rows_exact re_match re_full Hl). Qed.
+Print Assumptions prom_select_exact_partial_rows.
+
+(* ... and Select's row loop hands the engine each selected fingerprint once, with exactly its in-window
+   samples, ascending in time (the `ascending` hypothesis of seek_contract). *)
+Theorem prom_select_exact_partial : forall (re_match re_full : string -> string -> bool),
+  (forall v p, re_match v (anchor p) = re_full v p) ->
+  forall cluster dbname h ms db, use_raw_data h = true -> h_step h = 0 ->
+    db_ok (from_day (h_start h * 1000000)) (d_gin db) (d_series db) -> ms <> [] -> (List.length ms <= 8)%nat ->
+    (forall m, List.In m ms -> matcher_guard re_full (d_series db) m) ->
+    exists rows, prom_query_rows re_match cluster dbname h ms db = Some rows /\
+      let ss := select_loop (snd (querier_transpile cluster dbname h ms)) rows in
+      NoDup (map ps_fp ss) /\
+      (forall fp, List.In fp (map ps_fp ss) <->
+                  List.In fp (expected_fps re_full (from_day (h_start h * 1000000)) ms (d_series db)) /\
+                  exists s, List.In s (d_samples db) /\ window_ok h s = true /\ sm_fp s = fp) /\
+      (forall s, List.In s ss ->
+         ps_samples s = rows_of (ps_fp s) rows /\
+         StronglySorted Z.le (map fst (ps_samples s)) /\
+         (forall x, List.In x (ps_samples s) <->
+            exists sm, List.In sm (d_samples db) /\ window_ok h sm = true /\ sm_fp sm = ps_fp s /\
+                       x = (Z.quot (sm_ts_ns sm) 1000000, sm_value sm))).
+Proof. intros re_match re_full Hl. intros. now apply (prom_select_series_exact re_match re_full Hl). Qed.
+Print Assumptions prom_select_exact_partial.
+
+(* The row loop turns any fingerprint-contiguous row list into one series per fingerprint holding exactly
+   that fingerprint's rows, in order (after MapResult when the down-sampled count_over_time installed it). *)
+Theorem select_groups_rows : forall mr rows, contiguousb rows = true ->
+  NoDup (map ps_fp (select_loop mr rows)) /\
+  (forall fp, List.In fp (map r_fp rows) <-> List.In fp (map ps_fp (select_loop mr rows))) /\
+  (forall s, List.In s (select_loop mr rows) ->
+     ps_samples s = if mr then map_result_count (rows_of (ps_fp s) rows) else rows_of (ps_fp s) rows).
+Proof. exact select_loop_spec. Qed.
+Print Assumptions select_groups_rows.
+
+(* The raw-sample path is taken exactly when the start is not a multiple of 15 s, or the step is below
+   15 s, or a range below 15 s is asked for, or the function is one the 15 s roll-up cannot answer. *)
+Theorem use_raw_data_decision : forall h,
+  use_raw_data h = true <->
+  (~ (15000 | h_start h) \/ h_step h < 15000 \/ 0 < h_range h < 15000 \/ List.In (h_func h) explicitly_unsupported).
+Proof. exact use_raw_data_spec. Qed.
+Print Assumptions use_raw_data_decision.
